@@ -1,2 +1,2 @@
 THEOREMS = ["Pt.raise_sound", "Pt.raise_sound_reduce", "Pt.raise_reduce_inv", "Pt.raise_rejects",
-            "Pt.raise_reduce_misreads"]
+            "Pt.raise_reduce_prefix_misreads"]
